@@ -273,6 +273,32 @@ func checkC06(w *SketchWorld, slot int) (fails []mc.Fail) {
 			fail("C06.concatenation", "enc(a)|enc(b)|enc(a) decoded into %s stores (b absorbed %v)\n  got:  %s\n  want: %s", t, od.Ent, got, want)
 			return
 		}
+		if sl.Exact {
+			// the exact statistics of the three encodings add up as well
+			qo := w.S[o].Q()
+			wantCount := 2*q.GetCount() + qo.GetCount()
+			if dec.Q().GetCount() != wantCount {
+				fail("C06.concatenation", "enc(a)|enc(b)|enc(a) decoded into %s stores: exact count %v, the three encodings carry %v", t, dec.Q().GetCount(), wantCount)
+				return
+			}
+			if wantCount > 0 {
+				wmn, wmx := math.Inf(1), math.Inf(-1)
+				for _, x := range []Sketch{q, qo} {
+					if !x.IsEmpty() {
+						a, _ := x.GetMinValue()
+						b, _ := x.GetMaxValue()
+						wmn, wmx = math.Min(wmn, a), math.Max(wmx, b)
+					}
+				}
+				gmn, _ := dec.Q().GetMinValue()
+				gmx, _ := dec.Q().GetMaxValue()
+				ws := 2*q.GetSum() + qo.GetSum()
+				if gmn != wmn || gmx != wmx || math.Abs(dec.Q().GetSum()-ws) > 8*math.Ldexp(1, -52)*(2*math.Abs(q.GetSum())+math.Abs(qo.GetSum())) {
+					fail("C06.concatenation", "enc(a)|enc(b)|enc(a) decoded into %s stores: exact min/max/sum %v/%v/%v, the three encodings carry %v/%v/%v", t, gmn, gmx, dec.Q().GetSum(), wmn, wmx, ws)
+					return
+				}
+			}
+		}
 		mc.Count("decodes", 2)
 	}
 	return
@@ -895,6 +921,20 @@ func grammarShards(tier string) []mc.Shard {
 						return false
 					}
 					distinct[want] = struct{}{}
+					// the extreme indexes of each side are those of its non-empty bins
+					for side, pr := range map[string][2]any{"positive": {dec.GetPositiveValueStore(), exp.Pos}, "negative": {dec.GetNegativeValueStore(), exp.Neg}} {
+						sd, em := pr[0].(store.Store), pr[1].(*model.MapStore)
+						lo, ok := em.Min()
+						hi, _ := em.Max()
+						mn, e1 := sd.MinIndex()
+						mx, e2 := sd.MaxIndex()
+						if sd.IsEmpty() != !ok || (ok && (e1 != nil || e2 != nil || mn != lo || mx != hi)) {
+							res.Violations = append(res.Violations, mc.Violation{Property: "C07", Clause: "C07.accepts-valid-streams", Scenario: name, Seed: "stream",
+								History: []string{fmt.Sprintf("% x", stream), t.String()},
+								Detail:  fmt.Sprintf("the well-formed stream % x decoded into %s stores: the %s store reports empty=%v min=%d max=%d; its non-empty bins are %s", stream, t, side, sd.IsEmpty(), mn, mx, ModelContent(em))})
+							return false
+						}
+					}
 					// emptiness and count agree with the bins (a block of zero counts adds nothing)
 					if total := exp.Total(); dec.IsEmpty() != (total == 0) || dec.GetCount() != total {
 						res.Violations = append(res.Violations, mc.Violation{Property: "C07", Clause: "C07.accepts-valid-streams", Scenario: name, Seed: "stream",
